@@ -197,7 +197,29 @@ fn reader_faults(tape: &mut Tape, image_len: usize) -> ReaderPlan {
 }
 
 /// Field-directed extremes written at known offsets of a type-31 message. Returns a description.
+fn vcp_extreme(tape: &mut Tape, s: &mut Stream) -> Option<String> {
+    let idx: Vec<usize> = s.msgs.iter().enumerate().filter(|(_, m)| m.mtype == 5).map(|(i, _)| i).collect();
+    if idx.is_empty() {
+        return None;
+    }
+    let mi = idx[tape.draw(idx.len() as u64) as usize];
+    let base = s.msgs[mi].off + HEADER;
+    let (off, what, v) = match tape.draw(2) {
+        0 => (0usize, "message size", [0u16, 5, 10, 11, 65535][tape.draw(5) as usize]),
+        _ => (6usize, "cut count", [65535u16, 52, 53, 1000, 0][tape.draw(5) as usize]),
+    };
+    if base + off + 2 <= s.bytes.len() {
+        s.bytes[base + off..base + off + 2].copy_from_slice(&v.to_be_bytes());
+    }
+    Some(format!("message {} (VCP): {} := {}", mi, what, v))
+}
+
 fn extreme(tape: &mut Tape, s: &mut Stream) -> Option<String> {
+    if tape.draw(6) == 5 {
+        if let Some(n) = vcp_extreme(tape, s) {
+            return Some(n);
+        }
+    }
     let idx: Vec<usize> = s.msgs.iter().enumerate().filter(|(_, m)| m.t31.is_some()).map(|(i, _)| i).collect();
     if idx.is_empty() {
         return None;
@@ -496,7 +518,7 @@ impl Check for C04 {
                 }
             }
             1 => {
-                let mut s = build_stream(tape, &StreamOpts { t31_percent: 90, ..opts.clone() });
+                let mut s = build_stream(tape, &StreamOpts { t31_percent: 80, ..opts.clone() });
                 if s.msgs.iter().all(|m| m.t31.is_none()) {
                     let mut r = tape.fork();
                     push_message(&mut s, tape, &mut r, 31, 7, &opts);
@@ -653,7 +675,14 @@ impl Check for C04 {
                             spec.declared_cuts = [65535u16, 52, 1000, 0][tape.draw(4) as usize];
                             ctx.count("extreme_applied");
                         }
-                        (spec.encode_body(&mut r), Entry::Vcp)
+                        let mut b = spec.encode_body(&mut r);
+                        if tape.draw(3) == 2 {
+                            // the body's own size halfword: smaller than the header, zero, huge
+                            let v = [0u16, 5, 10, 11, 65535, 1][tape.draw(6) as usize];
+                            b[0..2].copy_from_slice(&v.to_be_bytes());
+                            ctx.count("extreme_applied");
+                        }
+                        (b, Entry::Vcp)
                     }
                     _ => {
                         let (b, _) = icd::clutter_filter_map(tape, &mut r, 3, true);
